@@ -391,6 +391,8 @@ def run_histories(ctx, nhist, nops, lfs, with_model=True, prefix='C07', judge=('
         it = gen.history(world, nops, lf)
         for op in it:
             ops.append(op)
+            if hasattr(ctx, 'current'):
+                ctx.current({'consts': consts, 'history': list(ops)})
             shape0 = block_sig(world, op['sid'])
             try:
                 line, exp, removed, err = world.apply(op)
